@@ -150,8 +150,8 @@ pub fn try_parse_field_width(str: &str) -> ParseResult<'_, Width> {
 	let mut out: u16 = 0;
 	let mut digits = 0;
 	while let Some(digit) = (bytes[digits] as char).to_digit(10) {
-		out *= 10;
-		out += digit as u16;
+		// Absurdly large widths are clamped instead of overflowing
+		out = out.saturating_mul(10).saturating_add(digit as u16);
 		digits += 1;
 		if digits == bytes.len() {
 			return Err(TruncatedFormatCode);
@@ -440,10 +440,19 @@ pub fn render_float(
 	// Note that it can also be equal to 10**prec and we'll need to carry
 	// over to the wholes.  We operate on the absolute numbers, so that we
 	// don't have trouble with the rounding direction.
-	let denominator = 10.0f64.powi(i32::from(precision));
+	// 10**precision should stay finite, digits past that are zeros for every double anyway
+	let shown_precision = precision.min(300);
+	let denominator = 10.0f64.powi(i32::from(shown_precision));
 	let numerator = n.abs().mul_add(denominator, 0.5);
-	let whole = (numerator / denominator).floor();
-	let frac = numerator.floor() % denominator;
+	let (whole, frac) = if numerator.is_finite() {
+		(
+			(numerator / denominator).floor(),
+			numerator.floor() % denominator,
+		)
+	} else {
+		// Number is too large to have fractional digits
+		(n.abs().floor(), 0.0)
+	};
 
 	#[allow(clippy::bool_to_int_with_if)]
 	let dot_size = if precision == 0 && !ensure_pt { 0 } else { 1 };
@@ -458,7 +467,10 @@ pub fn render_float(
 	if trailing || frac > 0.0 {
 		out.push('.');
 		let mut frac_str = String::new();
-		render_decimal(&mut frac_str, false, frac, precision, 0, false, false);
+		render_decimal(&mut frac_str, false, frac, shown_precision, 0, false, false);
+		for _ in shown_precision..precision {
+			frac_str.push('0');
+		}
 		let mut trim = frac_str.len();
 		if !trailing {
 			for b in frac_str.as_bytes().iter().rev() {
@@ -612,12 +624,13 @@ pub fn format_code(
 			} else {
 				value.abs().log10().floor()
 			};
-			if exponent < -4.0 || exponent >= f64::from(fpprec) {
+			if exponent < -4.0 || exponent >= f64::from(fpprec.max(1)) {
 				render_float_sci(
 					&mut tmp_out,
 					value,
 					padding,
-					fpprec - 1,
+					// As in printf, precision 0 is treated as 1 for %g
+					fpprec.max(1) - 1,
 					clfags.blank,
 					clfags.sign,
 					clfags.alt,
@@ -630,7 +643,7 @@ pub fn format_code(
 					&mut tmp_out,
 					value,
 					padding,
-					fpprec - digits_before_pt,
+					fpprec.max(1).saturating_sub(digits_before_pt),
 					clfags.blank,
 					clfags.sign,
 					clfags.alt,
